@@ -1,11 +1,13 @@
 """
 Some simple comparison expression normalization functions.
 """
+import re
 import socket
 
 from stix2.equivalence.pattern.compare.comparison import (
     ANY_INDEX, object_path_to_raw_values,
 )
+from stix2.patterns import StringConstant
 
 # Values we can use as wildcards in path patterns
 _ANY_IDX = object()
@@ -15,6 +17,12 @@ _ANY = object()
 # Operators whose rhs is an IP address (or CIDR block).  With the others the rhs
 # is a pattern or is ordered as a string, and rewriting it changes what matches.
 _IP_VALUE_OPERATORS = ("=", "!=", "ISSUBSET", "ISSUPERSET")
+
+# Plain dotted-decimal IPv4 addresses and decimal prefix sizes only: the
+# platform's functions and int() also accept shorthand, octal, hex, signed or
+# padded forms, which are different strings rather than the same address.
+_IPV4_RE = re.compile(r"^(\d{1,3})\.(\d{1,3})\.(\d{1,3})\.(\d{1,3})$", re.ASCII)
+_PREFIX_SIZE_RE = re.compile(r"^\d{1,3}$", re.ASCII)
 
 
 def _path_is(object_path, path_pattern):
@@ -118,8 +126,10 @@ def windows_reg_key(comp_expr):
 
     if _path_is(comp_expr.lhs, ("key",)) \
             or _path_is(comp_expr.lhs, ("values", _ANY_IDX, "name")):
-        # Only string constants can be canonicalized
-        if isinstance(comp_expr.rhs.value, str):
+        # Only string constants can be canonicalized (the value of a binary
+        # or hex constant is text too, but not the text being compared)
+        if isinstance(comp_expr.rhs, StringConstant) \
+                and isinstance(comp_expr.rhs.value, str):
             comp_expr.rhs.value = comp_expr.rhs.value.lower()
 
 
@@ -129,9 +139,8 @@ def ipv4_addr(comp_expr):
     to the prefix size.  This affects the rhs when the "value" property of an
     ipv4-addr is being compared.  If the prefix size is 32, the size suffix is
     simply dropped since it's redundant.  If the value is not a valid CIDR
-    address, then no change is made.  This also runs the address through the
-    platform's IPv4 address processing functions (inet_aton() and inet_ntoa()),
-    which can adjust the format.
+    address, then no change is made.  Leading zeros of the dotted-decimal
+    octets are dropped.
 
     This side-effects the given AST.
 
@@ -143,7 +152,8 @@ def ipv4_addr(comp_expr):
 
     if _path_is(comp_expr.lhs, ("value",)):
         value = comp_expr.rhs.value
-        if not isinstance(value, str):
+        if not isinstance(comp_expr.rhs, StringConstant) \
+                or not isinstance(value, str):
             # Only string constants can be canonicalized
             return
         slash_idx = value.find("/")
@@ -154,18 +164,17 @@ def ipv4_addr(comp_expr):
         else:
             ip_str = value
 
-        try:
-            ip_bytes = socket.inet_aton(ip_str)
-        except OSError:
+        match = _IPV4_RE.match(ip_str)
+        if not match or any(int(octet) > 255 for octet in match.groups()):
             # illegal IPv4 address string
             return
+        ip_bytes = bytes(int(octet) for octet in match.groups())
 
         if is_cidr:
-            try:
-                prefix_size = int(value[slash_idx+1:])
-            except ValueError:
+            if not _PREFIX_SIZE_RE.match(value[slash_idx+1:]):
                 # illegal prefix size
                 return
+            prefix_size = int(value[slash_idx+1:])
 
             if prefix_size < 0 or prefix_size > 32:
                 # illegal prefix size
@@ -173,9 +182,8 @@ def ipv4_addr(comp_expr):
 
         if not is_cidr or prefix_size == 32:
             # If a CIDR with prefix size 32, drop the prefix size since it's
-            # redundant.  Run the address bytes through inet_ntoa() in case it
-            # would adjust the format (e.g. drop leading zeros:
-            # 1.2.3.004 => 1.2.3.4).
+            # redundant.  Formatting the address bytes drops leading zeros
+            # (1.2.3.004 => 1.2.3.4).
             value = socket.inet_ntoa(ip_bytes)
 
         else:
@@ -210,7 +218,8 @@ def ipv6_addr(comp_expr):
 
     if _path_is(comp_expr.lhs, ("value",)):
         value = comp_expr.rhs.value
-        if not isinstance(value, str):
+        if not isinstance(comp_expr.rhs, StringConstant) \
+                or not isinstance(value, str):
             # Only string constants can be canonicalized
             return
         slash_idx = value.find("/")
@@ -228,11 +237,10 @@ def ipv6_addr(comp_expr):
             return
 
         if is_cidr:
-            try:
-                prefix_size = int(value[slash_idx+1:])
-            except ValueError:
+            if not _PREFIX_SIZE_RE.match(value[slash_idx+1:]):
                 # illegal prefix size
                 return
+            prefix_size = int(value[slash_idx+1:])
 
             if prefix_size < 0 or prefix_size > 128:
                 # illegal prefix size
